@@ -28,7 +28,7 @@ def _sched(nf, pmax, tiers, timeout, which, qa, qb):
           "handle_atomic_runq.0:%d" % (pmax + 1), "messageq_claim.0:2"]
     hs = [
       H("scheduler_next" + tag, F, "h_next", ["fibre_scheduler_next", "update_current_state", "handle_timerq", "get_next_task", "get_next_wakeup", "make_runnable", "fibre_self", "fibre_run"],
-        defs=d, replace_calls=STUB, restrict_fp=FP, unwind=u, unwindset=us, timeout=timeout, tiers=tiers, solvers=("cadical",), bounded=b),
+        defs=d, replace_calls=STUB, restrict_fp=FP, unwind=u, unwindset=us, timeout=timeout, tiers=tiers, solvers=("cadical", "minisat"), bounded=b),
       H("handle_atomic_runq" + tag, F, "h_drain", ["handle_atomic_runq", "make_runnable", "messageq_receive", "messageq_release"],
         defs=d, unwind=u, unwindset=us, timeout=timeout, tiers=tiers, solvers=("cadical",), bounded=b),
       H("fibre_run" + tag, F, "h_run", ["fibre_run", "make_runnable"], defs=d, replace_calls=STUB, unwind=u, unwindset=us, timeout=timeout, tiers=tiers, solvers=("cadical",), bounded=b),
@@ -121,7 +121,7 @@ def irq(nf, pmax, amax, tiers, timeout):
                 unwindset=us + ["handle_atomic_runq.0:%d" % (pmax + amax + 1)], timeout=timeout, tiers=tiers, solvers=("cadical",), bounded=b, replayable=False,
                 note="thread-modular query (interrupt handlers fire inside the call): no native replay"),
               H("irq_scheduler_next" + tag, G, "h_irq_next", ["fibre_scheduler_next", "get_next_wakeup", "messageq_empty", "update_current_state", "handle_timerq"], defs=dd, shadow=True, unwind=12,
-                unwindset=us, replace_calls=["handle_atomic_runq:handle_atomic_runq_irq_contract"], restrict_fp=FP, timeout=timeout, tiers=tiers, solvers=("cadical",), bounded=b, replayable=False,
+                unwindset=us, replace_calls=["handle_atomic_runq:handle_atomic_runq_irq_contract"], restrict_fp=FP, timeout=timeout, tiers=tiers, solvers=("cadical", "minisat"), bounded=b, replayable=False,
                 note="thread-modular query (interrupt handlers fire inside the call): no native replay"),
             ]
             if a == 0 and q == 0:
